@@ -21,6 +21,7 @@ type Run struct {
 	Beh   Behaviour
 	Seed  int64
 	No    int
+	Slow  bool // repeat of a run that reported a hang: watchdogs x3
 
 	Lines    []Line
 	Err      error
@@ -102,6 +103,16 @@ func corrupt(line J, done *bool) {
 	}
 }
 
+// Hung tells whether a line of the run reports a hang.
+func (r *Run) Hung() bool {
+	for _, l := range r.Lines {
+		if h, ok := l.J["hang"].(string); ok && h != "" {
+			return true
+		}
+	}
+	return false
+}
+
 // Execute runs the whole behaviour on the real code and records the trace lines.
 func (r *Run) Execute() {
 	corrupted := false
@@ -122,6 +133,9 @@ func (r *Run) Execute() {
 		return
 	}
 	defer c.Close()
+	if r.Slow {
+		c.slow = 3
+	}
 	emit(J{"k": "new", "ui": r.UI, "u": J{"kind2": u.Kind2, "eon2": u.Eon2, "name": u.Name}, "tabs": c.Tabs()})
 	count := func(line J) {
 		if line["v"] == "accept" {
